@@ -38,7 +38,7 @@ import time
 from lxml import etree
 
 from verif import tracecheck
-from verif.c05_helpers import (EMPTY, FIXED_NOW, NOTSET, STR_CATALOGUE, Builder, Tok, Uninstantiable, World, Xml, cobj,
+from verif.c05_helpers import (EMPTY, FIXED_NOW, LIST_ITEM_CATALOGUE, NOTSET, STR_CATALOGUE, Builder, Tok, Uninstantiable, World, Xml, cobj,
                                cval, short_exc)
 from verif.tlc import MachineryError, json_lines, run_tlc
 
@@ -584,7 +584,7 @@ def build_records(run, env: Env, by_sig: dict[str, list[str]]):
                 variants = [0]
                 if thorough:
                     if vc == 'bound':
-                        n = {'str': len(STR_CATALOGUE), 'enum': len(list(pi.enum)) if pi.enum else 1, 'int': 3,
+                        n = {'str': len(LIST_ITEM_CATALOGUE) if pi.kind in ('attrlist', 'textlist') else len(STR_CATALOGUE), 'enum': len(list(pi.enum)) if pi.enum else 1, 'int': 3,
                              'uint': 3, 'ulong': 3, 'dec': 4, 'ts': 3, 'dur': 3, 'qname': 2, 'dob': 3}.get(pi.stype, 1)
                         variants = list(range(n))
                     elif vc == 'xsi' and pi.kind in ('sub', 'container', 'sublist', 'containerlist'):
@@ -596,6 +596,8 @@ def build_records(run, env: Env, by_sig: dict[str, list[str]]):
                         variants = list(range(max(1, n)))
                 elif vc == 'bound' and pi.stype == 'str':
                     variants = [(len(records) * 7 + 3) % len(STR_CATALOGUE)]   # rotate through the catalogue
+                    if pi.kind in ('attrlist', 'textlist'):
+                        variants = [len(records) % 5, 5]
                 for variant in variants:
                     rec = member_record(env, cls, pi, vc, variant)
                     if rec is None:
